@@ -67,6 +67,8 @@ def run_job(job):
     def viol(func, pred, obs, exp, cond=None):
         out['viol'].append((func, pred, {'case': job, 'observed': obs, 'expected': exp}, cond or {}))
 
+    if job.get('kind') == 'probe':
+        return run_probe(job, bct, out, viol)
     Af = np.array(A, dtype=float)
     Aint = [[int(round(x * scale)) for x in r] for r in A]       # what the Lean model sees (scale keeps zero/nonzero and equality)
     assert all(abs(x * scale - round(x * scale)) == 0 for x in flat(A))
@@ -95,6 +97,11 @@ def run_job(job):
     comps = [int(x) for x in np.asarray(comps).ravel()]
     sizes = [int(x) for x in np.asarray(sizes).ravel()]
     out['lines'].append((line, 'comps=%s sizes=%s' % (ints(comps), ints(sizes)), 'get_components'))
+    r3 = wcall(bct.get_components, Af.copy(), no_depend=True)      # the routine's only option (documented as ignored)
+    if r3[0] == 'ok' and not same_result(r3[1], r[1]):
+        viol('get_components', 'option-no_depend-ignored', str(r3[1])[:200], str(r[1])[:200])
+    elif r3[0] == 'exc':
+        viol('get_components', 'raises', r3[1], None)
     if r2[0] == 'exc':
         viol('number_of_components', 'raises', r2[1], None)
     else:
@@ -143,6 +150,77 @@ def run_job(job):
                 x, y = badp[0]
                 viol('get_components', 'agrees-' + name, {'pair': [x, y], 'D': float(D[x, y]), 'comps': comps}, {'classes': cls})
     return out
+
+
+# ------------------------------------------------------------------ history / object-reuse probes (round 3)
+
+def run_probe(job, bct, out, viol):
+    """common.reuse_probe(target, (A,)): between the two calls on the SAME array object `mutate` optionally calls the partner
+    routine on it and then edits the matrix in place, symmetrically (join two components, cut an edge, threshold / binarize
+    with copy=False).  Additionally number_of_components and get_components must agree on the edited object."""
+    rs = np.random.RandomState(job['pseed'])
+    target, warm, edit = job['probe']
+    A = np.array(job['A'], dtype=float)
+    n = len(A)
+    log = []
+
+    def mutate(a):
+        M = a[0]
+        if warm != 'none':
+            call(getattr(bct, warm), M, t=T_CALL); log.append('%s(A) on the same object' % warm)
+        if edit == 'join':
+            cls = uf_classes(M.tolist())
+            reps = sorted(set(cls))
+            if len(reps) >= 2:
+                c1, c2 = [int(x) for x in rs.choice(len(reps), size=2, replace=False)]
+                i = [v for v in range(n) if cls[v] == reps[c1]][0]; j = [v for v in range(n) if cls[v] == reps[c2]][-1]
+                M[i, j] = M[j, i] = 1.0; log.append('A[%d,%d] = A[%d,%d] = 1 in place (joins two components)' % (i, j, j, i))
+        elif edit == 'cut':
+            es = [(i, j) for i in range(n) for j in range(i + 1, n) if M[i, j] != 0]
+            for _ in range(int(rs.randint(1, 3))):
+                if es:
+                    i, j = es.pop(int(rs.randint(len(es))))
+                    M[i, j] = M[j, i] = 0.0; log.append('A[%d,%d] = A[%d,%d] = 0 in place' % (i, j, j, i))
+        elif edit == 'threshold':
+            thr = float(rs.randint(2, 5))
+            call(bct.threshold_absolute, M, thr, copy=False, t=T_CALL); log.append('threshold_absolute(A, %r, copy=False)' % thr)
+        elif edit == 'binarize':
+            call(bct.binarize, M, copy=False, t=T_CALL); log.append('binarize(A, copy=False)')
+
+    d = reuse_probe(getattr(bct, target), [A], mutate, t=T_CALL)
+    out['evals'] += 1
+    out['status']['probe'] = out['status'].get('probe', 0) + 1
+    if d is not None:
+        d['between_the_two_calls'] = log
+        d['matrix_at_second_call'] = A.tolist()
+        viol(target, 'result-depends-on-history', d, 'second call on the same array object = call on fresh copies')
+    # the two routines on the edited object, and the oracle
+    r1 = call(bct.number_of_components, A, t=T_CALL); r2 = call(bct.get_components, A, t=T_CALL)
+    if r1[0] == 'ok' and r2[0] == 'ok':
+        m_true = len(set(uf_classes(A.tolist())))
+        if int(r1[1]) != len(r2[1][1]) or int(r1[1]) != m_true:
+            viol('number_of_components', 'number-of-components', {'number_of_components': int(r1[1]), 'len(comp_sizes)': len(r2[1][1]),
+                 'between_the_calls': log, 'matrix': A.tolist()}, m_true)
+    if d is None:
+        out['nontrivial'] = digest(['probe', job['probe'], job['A'], job['pseed']])
+    return out
+
+
+def gen_probes(rs, m):
+    jobs = []
+    combos = [(t_, w, e) for t_ in ('number_of_components', 'get_components') for w in ('none', 'number_of_components', 'get_components')
+              for e in ('join', 'cut', 'threshold', 'binarize')]
+    for q in range(m):
+        c = combos[q % len(combos)]
+        n = int(rs.randint(5, 13))
+        A = forest(rs, n, int(rs.randint(2, 5))) if rs.rand() < .6 else rand_sparse(rs, n, 1.5 / n)
+        if c[2] in ('threshold', 'binarize') or rs.rand() < .3:
+            for i in range(n):
+                for j in range(i + 1, n):
+                    if A[i][j]:
+                        A[i][j] = A[j][i] = int(rs.randint(1, 6))
+        jobs.append({'kind': 'probe', 'probe': list(c), 'A': A, 'fam': 'reuse-probe', 'pseed': int(rs.randint(1 << 30)), 'dist': False})
+    return jobs
 
 
 # ------------------------------------------------------------------ generators
@@ -270,6 +348,7 @@ def gen_jobs(rs, tier):
         else:
             A[i][j] = 0; A[j][i] = float(rs.choice([2.0 ** -34, 2.0 ** -28]))
         jobs.append({'A': A, 'fam': 'asymmetric', 'dist': False, 'scale': 2 ** 40 if kind >= 3 else 1})
+    jobs += gen_probes(rs, 800 if th else 120)
     return jobs
 
 
@@ -288,6 +367,8 @@ def main():
         jobs = [json.load(open(ck.replay))['case']['case']]
     else:
         jobs = gen_jobs(ck.rs, ck.tier)
+        # history across calls: never group by family or size — every worker sees sizes, families and probes interleaved
+        jobs = [jobs[i] for i in ck.rs.permutation(len(jobs))]
     results = pmap(run_job, jobs)
     lines, exps, funcs = [], [], []
     ntimeouts = 0
